@@ -234,7 +234,7 @@ theorem tieOk (h : LockR c s t) {q m R pre} (a : TieOk s q m R pre) : TieOk t q 
 theorem nodeOk (h : LockR c s t) {P idOf q m} (ok : NodeOk P idOf s q m) : NodeOk P idOf t q m := by
   refine ⟨h.obsOk ok.obs, ok.origin, ?_, ok.rank, fun o ho hout => h.structAt (ok.sobs o ho hout),
     fun o c' ho hout hd => by rw [h.memos]; exact ok.hmemo o c' ho hout hd,
-    ok.hd, ?_, ok.hsrc, ok.outedge, ok.never, ?_⟩
+    ok.hd, ?_, ok.hsrc, ok.outedge, ok.never, ?_, ok.shape⟩
   · intro hs o ho hout
     exact (h.sokDepIff o.dep).mpr (ok.ksok ((h.sokIff m).mp hs) o ho hout)
   · obtain ⟨R, h1, h2, h3, h4, h5⟩ := ok.rep
@@ -325,3 +325,4 @@ theorem LockR.ext {c s t} (h : LockR c s t) : Ext s t (c + 1) := by
   · intro c' sm _ hsm _; exact ⟨sm, by rw [h.smemos]; exact hsm, Or.inl rfl⟩
 
 end SalsaVerif.Proofs.CoreSpec
+
